@@ -57,7 +57,7 @@ func checkC18(w *World, r *Report) {
 			}
 			switch {
 			case strings.HasSuffix(calleeName(&c.Call), "expand.ListEnviron"):
-				desc = w.AP(c.Call.Args[0])
+				desc = w.APThrough(c.Call.Args[0])
 				okList = strings.HasPrefix(desc, "append(recv.env,") && strings.Contains(desc, "arg1.Env.Map()") && !strings.Contains(desc[len("append(recv.env,"):], "recv.env")
 			case strings.HasSuffix(calleeName(&c.Call), "utils.RenderString"):
 				okRender = w.AP(c.Call.Args[0]) == "arg1.Command" && w.AP(c.Call.Args[1]) == "arg1.Vars.Map()"
@@ -161,8 +161,23 @@ func checkC18(w *World, r *Report) {
 	if gb == nil {
 		r.Undecided("reserved", "graph builder", "-", "not resolved")
 	} else {
-		sets := findCalls(gb, func(n string, c *ssa.CallCommon) bool { return c.IsInvoke() && c.Method.Name() == "Set" })
-		facts := w.ifFacts(gb)
+		// the variables of a stage are built in the graph builder itself, or in a helper it calls
+		// once per stage: vfn is that function, hc its call in the graph builder (nil if vfn == gb)
+		isSet := func(n string, c *ssa.CallCommon) bool { return c.IsInvoke() && c.Method.Name() == "Set" }
+		vfn := gb
+		var hc *ssa.Call
+		if len(findCalls(gb, isSet)) == 0 {
+			allInstrs(gb, func(in ssa.Instruction) {
+				if c, ok := in.(*ssa.Call); ok {
+					if g := c.Call.StaticCallee(); g != nil && g.Blocks != nil && w.InModule(g) && len(findCalls(g, isSet)) > 0 {
+						vfn, hc = g, c
+					}
+				}
+			})
+		}
+		vname := FuncName(vfn)
+		sets := findCalls(vfn, isSet)
+		facts := w.ifFacts(vfn)
 		var guard *ifFact
 		for i, f := range facts {
 			if f.Atom.Op == "==" && f.Atom.R == "\"__jobID\"" && strings.HasPrefix(f.Atom.L, "rangekey(") {
@@ -174,19 +189,44 @@ func checkC18(w *World, r *Report) {
 			name := w.AP(call.Call.Args[0])
 			okG := false
 			if guard != nil && guard.Atom.L == name {
-				res := PathQuery{Fn: gb, Target: func(x ssa.Instruction) bool { return x == ssa.Instruction(call) }, BlockEdge: func(b *ssa.BasicBlock, s int) bool { return b == guard.If.Block() && s == guard.SuccFalse }}.Find()
+				res := PathQuery{Fn: vfn, Target: func(x ssa.Instruction) bool { return x == ssa.Instruction(call) }, BlockEdge: func(b *ssa.BasicBlock, s int) bool { return b == guard.If.Block() && s == guard.SuccFalse }}.Find()
 				errRet := blockReturns(guard.If.Block().Succs[guard.SuccTrue], func(rt *ssa.Return) bool { return len(rt.Results) == 2 && !isNilConst(rt.Results[1]) })
 				okG = !res.Found && errRet
+				// the helper's error makes the graph builder fail
+				if okG && hc != nil {
+					tests := w.nilTests(gb, hc)
+					okG = len(tests) > 0
+					for _, t := range tests {
+						if !blockReturns(t.If.Block().Succs[1-t.OkSucc], func(rt *ssa.Return) bool { return len(rt.Results) == 2 && !isNilConst(rt.Results[1]) }) {
+							okG = false
+						}
+					}
+				}
 			}
-			r.Check(okG, "reserved.guard", FuncName(gb)+": Set("+name+", …) of a job-supplied variable", w.InstrPos(call), "reachable only over the `name != reserved` edge; the reserved name returns an error", "a job-supplied variable name reaches Set without the reserved-name test: a job can overwrite the job-identity variable and attribute its state and logs to another job")
+			r.Check(okG, "reserved.guard", vname+": Set("+name+", …) of a job-supplied variable", w.InstrPos(call), "reachable only over the `name != reserved` edge; the reserved name returns an error", "a job-supplied variable name reaches Set without the reserved-name test: a job can overwrite the job-identity variable and attribute its state and logs to another job")
 		}
 		if len(sets) == 0 {
 			r.Viol("reserved.guard", FuncName(gb)+": job variables", w.Pos(gb.Pos()), "job variables are never set on the stage")
 		}
 		// the reserved variable is the job's own id
 		okID := false
-		allInstrs(gb, func(in ssa.Instruction) {
-			if mu, ok := in.(*ssa.MapUpdate); ok && w.AP(mu.Key) == "\"__jobID\"" && w.AP(mu.Value) == "(github.com/gofrs/uuid.UUID).String(arg0)" {
+		allInstrs(vfn, func(in ssa.Instruction) {
+			mu, ok := in.(*ssa.MapUpdate)
+			if !ok || w.AP(mu.Key) != "\"__jobID\"" {
+				return
+			}
+			sc, ok := w.Resolve(mu.Value).(*ssa.Call)
+			if !ok || !strings.HasSuffix(calleeName(&sc.Call), "uuid.(UUID).String") || len(sc.Call.Args) != 1 {
+				return
+			}
+			idv := w.Resolve(sc.Call.Args[0])
+			if hc != nil {
+				// the helper's id parameter is the graph builder's
+				if p, ok := idv.(*ssa.Parameter); ok && p.Parent() == vfn && paramIdxOf(p) < len(hc.Call.Args) {
+					idv = w.Resolve(hc.Call.Args[paramIdxOf(p)])
+				}
+			}
+			if p, ok := idv.(*ssa.Parameter); ok && p.Parent() == gb && paramIdxOf(p) == 0 {
 				okID = true
 			}
 		})
@@ -199,17 +239,21 @@ func checkC18(w *World, r *Report) {
 			})
 		}
 		okArg := call != nil && w.AP(call.Call.Args[0]) == "arg0.ID"
-		r.Check(okID && okArg, "reserved.own-id", FuncName(gb)+": reserved variable = the job's own id", w.Pos(gb.Pos()), "__jobID ← id.String() with id = job.ID at the call", "the job-identity variable is not set from the job's own id")
-		// a fresh container per stage: the FromMap call lies in the stage loop
+		r.Check(okID && okArg, "reserved.own-id", vname+": reserved variable = the job's own id", w.Pos(vfn.Pos()), "__jobID ← id.String() with id = job.ID at the call", "the job-identity variable is not set from the job's own id")
+		// a fresh container per stage: the FromMap call (or the call of the helper that makes it) lies in the stage loop
 		inLoop := false
-		allInstrs(gb, func(in ssa.Instruction) {
+		allInstrs(vfn, func(in ssa.Instruction) {
 			if c, ok := in.(*ssa.Call); ok && strings.HasSuffix(calleeName(&c.Call), "variables.FromMap") && strings.HasPrefix(w.AP(c.Call.Args[0]), "makemap") {
-				if (PathQuery{Fn: gb, Start: []ssa.Instruction{c}, Target: func(x ssa.Instruction) bool { return x == ssa.Instruction(c) }}).Find().Found {
+				var at ssa.Instruction = c
+				if hc != nil {
+					at = hc
+				}
+				if (PathQuery{Fn: gb, Start: []ssa.Instruction{at}, Target: func(x ssa.Instruction) bool { return x == at }}).Find().Found {
 					inLoop = true
 				}
 			}
 		})
-		r.Check(inLoop, "per-job.stage-variables", FuncName(gb)+": one variable container per stage", w.Pos(gb.Pos()), "the container is created inside the stage loop", "stages share one variable container")
+		r.Check(inLoop, "per-job.stage-variables", vname+": one variable container per stage", w.Pos(vfn.Pos()), "the container is created inside the stage loop", "stages share one variable container")
 	}
 	// ---- STAGE VARIABLES WIN: the variables a task runs with (script rendering, job identity)
 	// are the stage's, i.e. the job's: wherever the stage runner composes Task.Variables, the
